@@ -67,6 +67,14 @@ package crypto
 //@   callee crypto.checkInvocationScript
 //@   pureeffect
 //@   defines result == nil ==> invocationScriptOnlyPushes()
+// (checkInvocationScript walks the script with neo-go's instruction parser, trusted to return
+// the instructions in order: it goes on to the next instruction only after a push.)
+//@ ghost pred lastInstructionParsed() uint8
+//@ callrule c33_instruction_parsed in checkInvocationScript
+//@   callee (*scparser.Context).Next
+//@   defines res0 == lastInstructionParsed()
+//@ func checkInvocationScript
+//@   loop 1 iteration [walk_goes_on_only_after_a_push_instruction] lastInstructionParsed() <= 32
 //@ callrule c33_witness_run_only_with_a_push_only_invocation_script in verifyN3Scripts
 //@   callee transaction.NewFakeTX
 //@   requires [invocation_script_cannot_end_the_run] invocationScriptOnlyPushes()
